@@ -245,7 +245,18 @@ func runRecord() {
 		}
 	}
 	gen(nil)
-	chk.Range(fmt.Sprintf("RecordPattern/InReverse on run-length generated rows: all sequences of <=%d runs from {1,2,5,40} (rows up to %d px), both polarities, starts at every run boundary +-1", K, 40*K), len(seqs),
+	runLengthRows(fmt.Sprintf("RecordPattern/InReverse on run-length generated rows: all sequences of <=%d runs from {1,2,5,40} (rows up to %d px), both polarities, starts at every run boundary +-1", K, 40*K), seqs)
+	// runs whose ends fall on the 32-bit word boundaries of the row's storage (and one bit beside them)
+	K2 := chk.Pick(5, 6)
+	menu = []int{1, 31, 32, 33, 64}
+	seqs = nil
+	K = K2
+	gen(nil)
+	runLengthRows(fmt.Sprintf("RecordPattern/InReverse on rows whose runs end on storage word boundaries: all sequences of <=%d runs from {1,31,32,33,64} (rows up to %d px), both polarities, starts at every run boundary +-1", K2, 64*K2), seqs)
+}
+
+func runLengthRows(name string, seqs [][]int) {
+	chk.Range(name, len(seqs),
 		func(i int) string { return fmt.Sprint(seqs[i]) },
 		func(l *mc.Local, i int) {
 			for pol := 0; pol < 2; pol++ {
